@@ -890,9 +890,27 @@ def check_free_first(ck, prog):
                 rootP = ex.lvalue_root(P)
                 if rootK is None or rootP is None or rootK.get("n") != rootP.get("n"):
                     continue
+                # locals that hold the old pointer (uint8_t *old = coder->dict.buf; ... lzma_free(old)) stand for it
+                alias = set()
+                for x in region:
+                    for e in f.blocks[x].elems:
+                        if e is None:
+                            continue
+                        d = ex.deref(e)
+                        if d.get("k") == "decl" and d.get("init") is not None and ex.same(d["init"], P):
+                            alias.add(d["n"])
+                        for (l, r, op, node) in ex.writes(e):
+                            ls = ex.strip(l)
+                            if ls is not None and ls.get("k") == "var" and r is not None and op == "=" and ex.same(r, P):
+                                alias.add(ls["n"])
+
+                def frees_P(cc):
+                    if cc.get("fn") != "lzma_free" or not cc["args"]:
+                        return False
+                    a0 = ex.strip(cc["args"][0])
+                    return ex.same(cc["args"][0], P) or (a0 is not None and a0.get("k") == "var" and a0["n"] in alias)
                 frees = [(x, i) for x in region for i, e in enumerate(f.blocks[x].elems) if e is not None
-                         for cc in ex.calls(e, into_refs=False)
-                         if cc.get("fn") == "lzma_free" and cc["args"] and ex.same(cc["args"][0], P)]
+                         for cc in ex.calls(e, into_refs=False) if frees_P(cc)]
                 if not frees:
                     continue
                 n += 1
